@@ -496,7 +496,7 @@ fn witnesses(out: &mut Out, fam: &str, kinds: &[u8]) {
 /// histories of the given initial kinds under family `fam` (also used by C11 for builders)
 pub fn histories(cfg: &Cfg, out: &mut Out, fam: &str, kinds: &[u8]) {
     witnesses(out, fam, kinds);
-    let depth = if cfg.thorough { 6 } else { 5 };
+    let depth = if cfg.thorough { 7 } else { 6 };
     for &kind in kinds {
         for n in 0..=3usize {
             // full op set (clone bombs, up to 3 objects) to a smaller depth ...
